@@ -93,6 +93,10 @@ def documents(tier):
     for i, e in enumerate(['("[name]" = "Lake (north")', '("[name]" = "a)b" AND [x] > 1)', "([a] = ')' OR [b] = '(')", '(("a)" + [a]) * ([b] + 2))',
                            '([a] IN "1,2" AND NOT ([b] ~ "^(x|y)$"))', '(tostring([area],"%.2f (ha)"))', '{a (1),b}', '/^(a|b)\\)$/']):
         out.append(("EXPR %d" % i, "LAYER\n  TYPE POINT\n  CLASS\n    EXPRESSION %s\n    TEXT %s\n  END\nEND" % (e, e if e.startswith("(") else '"t"')))
+    # string values spanning several lines (LF, CRLF and CR inside the value), in keyword, METADATA and PROCESSING position
+    out.append(("MULTI lf", 'LAYER\n  TYPE POINT\n  DATA "select *\n  from t\n\n  where x"\n  METADATA\n    "k" "v1\nv2"\n  END\n  PROCESSING "A=1\nB=2"\nEND'))
+    out.append(("MULTI crlf", 'LAYER\n  TYPE POINT\n  DATA "select *\r\n  from t"\n  NAME "a\rb"\nEND'))
+    out.append(("MULTI odd", 'MAP\n  NAME "ff\x0cvt\x0bnel\x85ls\u2028ps\u2029fs\x1cend"\n  WEB\n    TEMPLATE "t\tab"\n  END\nEND'))
     # equal numbers of different type in one text, in both orders (the same dictionary must always give the same text, whatever was printed before)
     out.append(("NUM float-then-int", "STYLE\n  WIDTH 2.0\n  SIZE 25000.0\nEND\nSTYLE\n  WIDTH 2\n  SIZE 25000\nEND"))
     out.append(("NUM int-then-float", "STYLE\n  WIDTH 2\n  SIZE 25000\nEND\nSTYLE\n  WIDTH 2.0\n  SIZE 25000.0\nEND"))
